@@ -975,10 +975,6 @@ func writeIfChanged(path, content string) {
 	os.WriteFile(path, []byte(content), 0o644)
 }
 
-// extraTables: further generated files (one function per area, registered from init() in its
-// own source file, e.g. prom.go); each writes lean/RoGen/<Area>.lean from the repository.
-var extraTables []func(repo, out string)
-
 func main() {
 	repo := flag.String("repo", "/repo", "repository root")
 	out := flag.String("out", "", "directory for RoGen/*.lean")
@@ -1054,9 +1050,6 @@ func main() {
 	} else {
 		js, _ := json.MarshalIndent(facts, "", " ")
 		fmt.Println(string(js))
-	}
-	for _, x := range extraTables {
-		x(*repo, *out)
 	}
 }
 
